@@ -29,31 +29,56 @@ Theorem C06_destroy_nothing_behind : forall s e force allow keep tfail s' u x,
 Proof. exact destroy_nothing_behind. Qed.
 Print Assumptions C06_destroy_nothing_behind.
 
-(* --- failed creation, full statement, for a creation nothing overlaps and for the second half of an
-       overlapped one: a creation that returned an error — at whatever stage: template missing / in
-       error, host without detector, detector busy, undeployable role, launch failure, deployment
-       timeout, CONFIGURE refused by a critical task — leaves the environment unlisted, no task with it
-       as parent, and every task launched for it (running, still staging or dead) sent KILL. *)
-Theorem C06_failed_creation_leaves_nothing : failed_creation_leaves_nothing.
-Proof. exact failed_creation_leaves_nothing_holds. Qed.
-Print Assumptions C06_failed_creation_leaves_nothing.
+(* --- failed creation.  Full statement: a creation that returned an error leaves the environment
+       unlisted, no task with it as parent, and every task launched for it either sent KILL or - never
+       having become owned - still in the roster, unowned, for the next cleanup.  It is FALSE for the
+       unchanged code: acquireTasks retries a deployment that failed up to three times and launches the
+       deployable roles again in every attempt, but keeps only the tasks of the last attempt; those of
+       the earlier attempts run on their agents, are in no roster and can never be selected for a KILL
+       (finding C06-d; witness replayed on the implementation as corpus case partial-deployment). *)
+Theorem C06_retried_deployment_leak_refuted : ~ failed_creation_leaves_nothing.
+Proof. exact failed_creation_leaves_nothing_refuted. Qed.
+Print Assumptions C06_retried_deployment_leak_refuted.
 
-Theorem C06_failed_overlapped_creation_leaves_nothing : forall s e c s' u,
-  reachable s -> assocN e (s_snaps s) <> None ->
+(* --- what holds instead: unless the deployment was retried after a PARTIAL launch (oracle c_fail = 6),
+       a creation that returned an error - at whatever stage: template missing / in error, host without
+       detector, detector busy, undeployable role, launch failure, deployment timeout, CONFIGURE refused
+       by a critical task - leaves the environment unlisted, no task with it as parent, and every task
+       launched for it (running, still staging or dead) sent KILL. *)
+Theorem C06_failed_creation_partial : forall s e c s' u,
+  reachable s -> wf_op s (OCreate e c) = true -> c_fail c <> 6 ->
+  step s (OCreate e c) = (s', u) -> o_rc u = 1 ->
+  nothing_left e s' /\ launched_killed e c u.
+Proof. exact failed_creation_partial. Qed.
+Print Assumptions C06_failed_creation_partial.
+
+Theorem C06_failed_overlapped_creation_partial : forall s e c s' u,
+  reachable s -> assocN e (s_snaps s) <> None -> c_fail c <> 6 ->
   step s (OFinish e c) = (s', u) -> o_rc u = 1 ->
   (nothing_left e s' /\ launched_killed e c u) /\ o_pend u = 0.
 Proof. exact finish_nothing_behind. Qed.
-Print Assumptions C06_failed_overlapped_creation_leaves_nothing.
+Print Assumptions C06_failed_overlapped_creation_partial.
 
 (* --- "its pending hook calls have been cancelled", failure tail of a creation: no call of the
-       environment is left pending and uncancelled — also those started by the leave_<state> hooks that
+       environment is left pending and uncancelled - also those started by the leave_<state> hooks that
        TeardownEnvironment itself runs.  Like the o_pend clause of C06_destroy_nothing_behind this rests
        on gen/Gen_TdOrder.v (the source order of TeardownEnvironment's steps, regenerated on every run):
        cancelCallsPendingAwait comes after the last point where a pending call can be started. *)
 Theorem C06_failed_creation_cancels_calls : forall s e c s' u,
-  reachable s -> wf_op s (OCreate e c) = true -> step s (OCreate e c) = (s', u) -> o_rc u = 1 -> o_pend u = 0.
+  reachable s -> wf_op s (OCreate e c) = true -> c_fail c <> 6 ->
+  step s (OCreate e c) = (s', u) -> o_rc u = 1 -> o_pend u = 0.
 Proof. exact failed_creation_cancels_calls. Qed.
 Print Assumptions C06_failed_creation_cancels_calls.
+
+(* --- "tasks that never became owned stay unowned and fall to the next cleanup": whatever unlocked task
+       is in the roster, the next Cleanup sends it KILL.  (That the tasks of the LAST attempt of a failed
+       deployment are in the roster at all is the regression example C06_partial_deployment_regression
+       below; it rests on gen/Gen_AcqRoster.v: acquireTasks writes the launched tasks to the roster
+       whether or not the deployment succeeded.) *)
+Theorem C06_unowned_falls_to_next_cleanup : forall s t,
+  In t (s_roster s) -> is_locked t = false -> In (t_id t) (o_kills (snd (step s OCleanup))).
+Proof. exact unowned_falls_to_cleanup. Qed.
+Print Assumptions C06_unowned_falls_to_next_cleanup.
 
 (* --- "DESTROY hooks run only after the other tasks were released": in every consistent state (every
        reachable state is one — next theorem — and so is every intermediate state inside a request,
@@ -88,6 +113,13 @@ Proof. vm_compute. repeat split; reflexivity. Qed.
 Example C06_staging_regression :
   let '(s', u) := step st0 (OCreate 0 stg_spec) in
   o_rc u = 1 /\ mem_tid (0, 2) (o_kills u) = true /\ s_roster s' = [].
+Proof. vm_compute. repeat split; reflexivity. Qed.
+
+Example C06_partial_deployment_regression :
+  let '(s', u) := step st0 (OCreate 0 pd_spec) in
+  o_rc u = 1 /\ length (o_launch u) = 6%nat /\ o_kills u = [] /\
+  map t_id (s_roster s') = [(0, 4); (0, 5)] /\ forallb (fun t => negb (is_locked t)) (s_roster s') = true /\
+  o_kills (snd (step s' OCleanup)) = [(0, 4); (0, 5)].
 Proof. vm_compute. repeat split; reflexivity. Qed.
 
 Example C06_failed_executor_regression :
